@@ -12,6 +12,7 @@ pub mod c13;
 pub mod c14;
 pub mod c15;
 pub mod c16;
+#[cfg(feature = "utils")]
 pub mod c18;
 pub mod c19;
 pub mod c04;
@@ -40,6 +41,7 @@ pub fn run(id: &str, tier: &str, seed: u64) -> Option<i32> {
         "C14" => go!("C14", "fault_enumeration", c14),
         "C11" => go!("C11", "exploration", c11),
         "C08" => go!("C08", "exploration", c08),
+        #[cfg(feature = "utils")]
         "C18" => go!("C18", "exploration", c18),
         "C16" => go!("C16", "exploration", c16),
         "C03" => go!("C03", "exploration", c03),
@@ -69,6 +71,7 @@ pub fn replay(id: &str, case: &serde_json::Value) -> Option<CheckResult> {
         "C14" => Some(c14::replay(case)),
         "C11" => Some(c11::replay(case)),
         "C08" => Some(c08::replay(case)),
+        #[cfg(feature = "utils")]
         "C18" => Some(c18::replay(case)),
         "C16" => Some(c16::replay(case)),
         "C03" => Some(c03::replay(case)),
